@@ -1,6 +1,10 @@
 """C05 helper: (a) GIR XML -> flat observation for tla/IntrospectTrace.tla, (b) abstract graph case ->
 real scanner input (symbols, comment blocks, GType dump).
 
+An index record carries, next to the index and the number of parameters (fields), the name found at that position
+(`pname`, "" when out of range) and `want`: the name the generating annotation named ("" = unknown; filled by the
+check for the inputs it rendered itself, see extra_wants).
+
 (a) is a dumb structural flattening of `girabs` trees: it copies tags, attribute values, attribute
 presence, child counts and positions into flat records.  It never decides whether a name is
 fundamental, resolves, is introspectable, is a callback...: all of that is judged by TLC
@@ -87,14 +91,17 @@ def project(tree, oid, others=(), partial=(), inferred=False):
     defs['~'] = dict(kind='none', intro=True, target='')          # never empty
     uses, idx, pairs = [], [], []
 
-    def emit_types(holder, path, okind, site, marked, nparams, nfields):
+    def name_at(names, i):
+        return names[i] if 0 <= i < len(names) else ''
+
+    def emit_types(holder, path, okind, site, marked, nparams, nfields, names=()):
         a = holder['attrs']
         for t in holder['children']:
             if t['tag'] in TYPE_TAGS:
                 emit_type(t, path, okind, site, marked, 0, 'transfer-ownership' in a, 'scope' in a,
-                          a.get('skip') == '1', nparams, nfields)
+                          a.get('skip') == '1', nparams, nfields, names)
 
-    def emit_type(t, path, okind, site, marked, depth, has_xfer, has_scope, vskip, nparams, nfields):
+    def emit_type(t, path, okind, site, marked, depth, has_xfer, has_scope, vskip, nparams, nfields, names=()):
         kids = [k for k in t['children'] if k['tag'] in TYPE_TAGS]
         name = t['attrs'].get('name', '')
         q, tns = _qual(nsname, name)
@@ -104,9 +111,10 @@ def project(tree, oid, others=(), partial=(), inferred=False):
                          hasXfer=has_xfer, hasScope=has_scope, vskip=vskip))
         if t['tag'] == 'array' and 'length' in t['attrs']:
             idx.append(dict(id=path, kind='length', idx=_int(t['attrs']['length']),
-                            n=nparams if nparams >= 0 else nfields, marked=marked))
+                            n=nparams if nparams >= 0 else nfields, marked=marked,
+                            pname=name_at(names, _int(t['attrs']['length'])), want=''))
         for k in kids:
-            emit_type(k, path, okind, site, marked, depth + 1, has_xfer, has_scope, vskip, nparams, nfields)
+            emit_type(k, path, okind, site, marked, depth + 1, has_xfer, has_scope, vskip, nparams, nfields, names)
 
     def callable_(e, path, marked, scope_path):
         tag = e['tag']
@@ -117,18 +125,20 @@ def project(tree, oid, others=(), partial=(), inferred=False):
                 params = c['children']
         plain = [p for p in params if p['tag'] == 'parameter']
         n = len(plain)
+        pnames = [p['attrs'].get('name', '') for p in plain]
         for c in e['children']:
             if c['tag'] == 'return-value':
-                emit_types(c, path + '/return', tag, 'return', marked, n, -1)
+                emit_types(c, path + '/return', tag, 'return', marked, n, -1, pnames)
         for p in params:
             if p['tag'] == 'instance-parameter':
                 emit_types(p, path + '/instance', tag, 'instance', marked, n, -1)
             elif p['tag'] == 'parameter':
                 pp = path + '/param:' + p['attrs'].get('name', '')
-                emit_types(p, pp, tag, 'param', marked, n, -1)
+                emit_types(p, pp, tag, 'param', marked, n, -1, pnames)
                 for k in ('closure', 'destroy'):
                     if k in p['attrs']:
-                        idx.append(dict(id=pp, kind=k, idx=_int(p['attrs'][k]), n=n, marked=marked))
+                        idx.append(dict(id=pp, kind=k, idx=_int(p['attrs'][k]), n=n, marked=marked,
+                                        pname=name_at(pnames, _int(p['attrs'][k])), want=''))
         a = e['attrs']
         nm = _name_of(e)
         if tag in ('function', 'function-inline', 'method', 'method-inline', 'constructor'):
@@ -153,6 +163,7 @@ def project(tree, oid, others=(), partial=(), inferred=False):
                     pairs.append(dict(kind='typestruct', scope=nsname, name=nm, attr=k[5:], value=a[k]))
         members = [c for c in e['children'] if c['tag'] in ('field', 'record', 'union')]
         nfields = len(members)
+        fnames = [_name_of(m) for m in members]
         for c in e['children']:
             t = c['tag']
             cn = _name_of(c)
@@ -161,7 +172,7 @@ def project(tree, oid, others=(), partial=(), inferred=False):
             elif t == 'field':
                 fm = marked or c['attrs'].get('introspectable') == '0'
                 fp = '%s/field:%s' % (path, cn)
-                emit_types(c, fp, 'field', 'field', fm, -1, nfields)
+                emit_types(c, fp, 'field', 'field', fm, -1, nfields, fnames)
                 for k in c['children']:
                     if k['tag'] == 'callback':
                         callable_(k, fp + '/callback:' + _name_of(k), fm, fp)
@@ -392,11 +403,55 @@ EXTRA_VARIANTS = {
     'cont': ['%s:%s:%s' % (c, e, st) for c in ('GList', 'GSList', 'GPtrArray', 'GArray', 'GHashTable', 'carray')
              for e in ('none', 'utf8', 'int', 'unres', 'node') for st in ('param', 'return', 'field')],
     'exotic': ['ulonglong-ret', 'longdouble-param', 'valist-param', 'longlong-field', 'varargs', 'ulonglong-alias'],
+    'movedm': ['ret-last', 'ret-mid', 'param', 'param-late', 'clos', 'clos-ann'],
+    'vslot': ['ret-last', 'ret-mid', 'param', 'param-late', 'clos', 'clos-ann'],
 }
+NEEDS_RECORD = ('movedm', )
+
+
+def _sig(v, cbt):
+    """(return ctype, params, param annotations, return annotations) shared by movedm / vslot variants"""
+    if v == 'ret-last':
+        return 'int *', [('int', 'flags'), ('gsize *', 'n_data')], [('n_data', ['(out)'])], ['(array length=n_data)', '(transfer full)']
+    if v == 'ret-mid':
+        return 'int *', [('gsize *', 'n_data'), ('int', 'flags')], [('n_data', ['(out)'])], ['(array length=n_data)', '(transfer full)']
+    if v == 'param':
+        return 'void', [('const int *', 'data'), ('gsize', 'n_data')], [('data', ['(array length=n_data)'])], []
+    if v == 'param-late':
+        return 'void', [('gsize', 'n_data'), ('int', 'flags'), ('const int *', 'data')], [('data', ['(array length=n_data)'])], []
+    if v == 'clos':
+        return 'void', [(cbt, 'cb'), ('gpointer', 'user_data'), ('GDestroyNotify', 'notify')], [], []
+    return 'void', [('int', 'flags'), ('GDestroyNotify', 'notify'), ('gpointer', 'user_data'), (cbt, 'cb')], \
+        [('cb', ['(scope notified)', '(closure user_data)', '(destroy notify)'])], []
+
+
+def extra_wants(x):
+    """{(index kind, leaf of the owner's path): name the annotation (or the heuristic on the conventional parameter
+    names) points at} for the declarations render_extra() makes of extra x - what the input says, not a judgement"""
+    k, v = x['kind'], x['v']
+    if k == 'arrlen':
+        return {('length', 'return' if v == 'ret' else 'param:data'): 'n_data'}
+    if k == 'fieldarr':
+        return {('length', 'field:items'): 'n_items'}
+    if k == 'clos':
+        return {'heur': {('closure', 'param:cb'): 'user_data', ('destroy', 'param:cb'): 'notify'},
+                'ann': {('closure', 'param:cb'): 'ctx', ('destroy', 'param:cb'): 'dn'},
+                'call': {('closure', 'param:cb'): 'user_data'},
+                'async': {('closure', 'param:callback'): 'user_data'}}.get(v, {})
+    if k in ('movedm', 'vslot'):
+        if v.startswith('ret'):
+            return {('length', 'return'): 'n_data'}
+        if v.startswith('param'):
+            return {('length', 'param:data'): 'n_data'}
+        return {('closure', 'param:cb'): 'user_data', ('destroy', 'param:cb'): 'notify'}
+    return {}
 
 
 def render_extra(S, n, x, kind, symbols, comments, dump, line):
     k, v, tgt, host = x['kind'], x['v'], x.get('tgt', 0), x.get('host', 0)
+    if k in NEEDS_RECORD and not (host and kind.get(host) == 'record'):
+        recs = [i for i in sorted(kind) if kind[i] == 'record']
+        host = recs[0] if recs else 0
     hostrec = host and kind.get(host) == 'record'
     pfx = ('foo_r%d_x%d' % (host, n)) if hostrec else 'foo_x%d' % n
     selfp = [(c_name(host, 'record') + ' *', 'self')] if hostrec else []
@@ -549,6 +604,39 @@ def render_extra(S, n, x, kind, symbols, comments, dump, line):
             symbols.append(S.struct_def('_' + cn, [('int', 'pad'), ('long long', 'big')], line=line + 1))
         else:
             symbols.append(S.alias('FooX%dBig' % n, 'unsigned long long', line=line))
+    elif k == 'movedm':
+        # foo_r1s_x3_arr(FooR1 *things, ...): starts with the symbol prefix of the record but not with "prefix_" (the
+        # g_resources_register() situation): stays a function AND gets a backwards-compatible method copy with moved-to
+        cb = 'FooX%dCb' % n
+        if v.startswith('clos'):
+            symbols.append(S.callback(cb, 'void', [('int', 'x'), ('gpointer', 'user_data')], line=line))
+        ret, params, pann, rann = _sig(v, cb)
+        if host and kind.get(host) == 'record':
+            fn = 'foo_r%ds_x%d_arr' % (host, n)
+            params = [(c_name(host, 'record') + ' *', 'things')] + params
+        else:
+            fn = 'foo_x%d_arr' % n
+        symbols.append(S.function(fn, ret, params, line=line + 1))
+        doc(fn, params=pann, ret=rann)
+    elif k == 'vslot':
+        # a class-structure slot and the method that invokes it: <callback> field + <virtual-method> + <method>
+        cn, lc = 'FooX%d' % n, 'foo_x%d' % n
+        cb = 'FooX%dCb' % n
+        if v.startswith('clos'):
+            symbols.append(S.callback(cb, 'void', [('int', 'x'), ('gpointer', 'user_data')], line=line))
+        ret, params, pann, rann = _sig(v, cb)
+        symbols.append(S.typedef_struct(cn, '_' + cn, line=line))
+        symbols.append(S.typedef_struct(cn + 'Class', '_' + cn + 'Class', line=line))
+        symbols.append(S.struct_def('_' + cn, [('GObject', 'parent_instance')], line=line + 1))
+        symbols.append(S.struct_def('_' + cn + 'Class', [
+            ('GObjectClass', 'parent_class'),
+            S.member(S.funcptr(ret, [(cn + ' *', 'self')] + params), 'get_data')], line=line + 2))
+        symbols.append(S.function(lc + '_get_type', 'GType', [], line=line + 3))
+        symbols.append(S.function(lc + '_get_data', ret, [(cn + ' *', 'self')] + params, line=line + 4))
+        doc(lc + '_get_data', params=pann, ret=rann)
+        doc('%sClass::get_data' % cn, params=pann, ret=rann)        # the slot's own block (an annotated return type
+        #                                                               keeps the method from being paired as its invoker)
+        dump.append('<class name="%s" get-type="%s_get_type" parents="GObject"></class>' % (cn, lc))
     else:
         raise ValueError('unknown extra %r' % (x, ))
     return line + 10
